@@ -131,12 +131,13 @@ static int ip_eq(const struct sockaddr_storage *a, const struct sockaddr_storage
 
 static void viol(const char *what, const char *fmt, ...)
 {
+	if (hc_san_as) return;
 	char detail[380], sig[120];
 	va_list ap; va_start(ap, fmt); vsnprintf(detail, sizeof detail, fmt, ap); va_end(ap);
 	snprintf(sig, sizeof sig, "%s:%s", PROP, what);
 	xp_violation(sig, "%s", detail);
 }
-static void on_san(const char *sig) { (void)sig; xp_count(K_SAN, 1); }
+static void on_san(const char *sig) { if (hc_san_report(sig, 0, "the authentication/isolation search")) return; xp_count(K_SAN, 1); }
 
 /* ---------------------------------------------------------------- snapshots of the real struct */
 typedef struct setts { const struct encoder *enc; char downenc; int lazy, fragsize, conn; } setts;
@@ -574,7 +575,7 @@ int main(int argc, char **argv)
 	OPS.nletters = nlt; OPS.apply = apply; OPS.key = key; OPS.name = lname;
 	OPS.maxdepth = depth ? depth : thorough ? 5 : 4;
 	xp_describe_job = describe_job;
-	xp_init(PROP, a.tier, 1 << 24, a.budget_s);
+	xp_init(hc_san_as ? hc_san_as : PROP, a.tier, 1 << 24, a.budget_s);
 	if (a.replay) {
 		int j = xp_load_replay(a.replay);
 		boot(j / nlt);
